@@ -5,10 +5,13 @@ import (
 	"context"
 	"encoding/json"
 	"fmt"
+	"io"
 	"sort"
 	"strings"
 	"sync"
+	"time"
 
+	"perkeep.org/pkg/blob"
 	"perkeep.org/pkg/index"
 
 	"verif/harness"
@@ -55,20 +58,29 @@ type Config struct {
 	Times []int64 `json:"times,omitempty"`
 	// C14: the concurrent feed-while-queried mode (c14.go)
 	C14 *c14Cfg `json:"c14,omitempty"`
+	// StallMissMs: a fetch from the blob source that misses takes this many
+	// (virtual) milliseconds before the miss is reported: a slow source. The
+	// index's own receive stays in flight meanwhile, so everything else of
+	// the segment runs between the miss and what the receive does about it.
+	StallMissMs int `json:"stallMissMs,omitempty"`
 }
 
 // Op is one element of the arrival history.
 type Op struct {
-	// K: deliver | restart | check | corpus
+	// K: deliver | bulk | restart | check | corpus
 	K string `json:"k"`
 	// deliver: item I by client C; Race = the blob reaches the blob source in
 	// a separate task, racing with the index receive
 	I    int  `json:"i,omitempty"`
 	C    int  `json:"c,omitempty"`
 	Race bool `json:"race,omitempty"`
+	// bulk: client C delivers N small opaque filler blobs (derived from
+	// Seed) one after the other: a big indexing batch.
+	N    int    `json:"n,omitempty"`
+	Seed uint64 `json:"seed,omitempty"`
 }
 
-func (o Op) barrier() bool { return o.K != "deliver" }
+func (o Op) barrier() bool { return o.K != "deliver" && o.K != "bulk" }
 
 func (e engine) Gen(prop, tier string, run int, r *simcore.Rand) *harness.Plan {
 	switch prop {
@@ -161,6 +173,59 @@ type session struct {
 	reach     map[string]int
 	nput      int
 	waited    map[string]bool // refs for which a missing| row was written and that are not indexed yet
+	// fillers delivered by bulk ops (ref -> true); never part of the world
+	fillers   map[string]bool
+	stallMiss time.Duration
+	nstall    int
+}
+
+// stallSrc is the blob source as the index sees it when misses are slow.
+type stallSrc struct {
+	*sim.SimStore
+	s *session
+}
+
+func (x stallSrc) Fetch(ctx context.Context, br blob.Ref) (io.ReadCloser, uint32, error) {
+	rc, size, err := x.SimStore.Fetch(ctx, br)
+	if err != nil && x.s.stallMiss > 0 {
+		x.s.mu.Lock()
+		x.s.nstall++
+		// distinct wake-up instants: two sleepers never become runnable
+		// at the same virtual time
+		d := x.s.stallMiss + time.Duration(x.s.nstall)*time.Millisecond
+		x.s.reach["source-miss-stalled"]++
+		x.s.mu.Unlock()
+		time.Sleep(d)
+		simcore.Yield("indexsim.stall.wake")
+	}
+	return rc, size, err
+}
+
+// fillerBlob is the k-th filler of a bulk op.
+func fillerBlob(seed uint64, k int) (blob.Ref, []byte) {
+	data := []byte(fmt.Sprintf("filler %016x %08d", seed, k))
+	return blob.RefFromBytes(data), data
+}
+
+// bulk delivers the fillers of a bulk op.
+func (s *session) bulk(op Op) {
+	ctx := context.Background()
+	for k := 0; k < op.N; k++ {
+		br, data := fillerBlob(op.Seed, k)
+		_, err := s.srcW.ReceiveBlob(ctx, br, bytes.NewReader(data))
+		if err == nil {
+			_, err = s.idx.ReceiveBlob(ctx, br, bytes.NewReader(data))
+		}
+		s.mu.Lock()
+		if s.fillers == nil {
+			s.fillers = map[string]bool{}
+		}
+		s.fillers[br.String()] = true
+		if err != nil && len(s.recvErrs) < 8 {
+			s.recvErrs = append(s.recvErrs, fmt.Sprintf("filler %d of a bulk delivery: %v", k, err))
+		}
+		s.mu.Unlock()
+	}
 }
 
 func newSession(rc *harness.RunCtx, w *world, name string) *session {
@@ -205,7 +270,11 @@ func (s *session) open() error {
 			oerr = fmt.Errorf("index.New: %w", err)
 			return
 		}
-		idx.InitBlobSource(s.srcW)
+		if s.stallMiss > 0 {
+			idx.InitBlobSource(stallSrc{s.srcW, s})
+		} else {
+			idx.InitBlobSource(s.srcW)
+		}
 		s.idx = idx
 		s.corpus = nil
 		if s.corpusOn {
@@ -272,7 +341,7 @@ func (s *session) deliver(op Op, n int) {
 func (s *session) segment(ops []Op, base int) error {
 	byC := map[int][]int{}
 	for i, op := range ops {
-		if op.K == "deliver" {
+		if op.K == "deliver" || op.K == "bulk" {
 			byC[op.C] = append(byC[op.C], i)
 		}
 	}
@@ -288,6 +357,10 @@ func (s *session) segment(ops []Op, base int) error {
 		names = append(names, fmt.Sprintf("c%d", c))
 		fs = append(fs, func() {
 			for _, i := range list {
+				if ops[i].K == "bulk" {
+					s.bulk(ops[i])
+					continue
+				}
 				s.deliver(ops[i], base+i)
 			}
 		})
@@ -418,6 +491,8 @@ func (w *world) describeOps(ops []Op) []string {
 				s += " [source put races]"
 			}
 			out = append(out, s)
+		case "bulk":
+			out = append(out, fmt.Sprintf("c%d: %d opaque filler blobs", op.C, op.N))
 		default:
 			out = append(out, op.K)
 		}
@@ -434,6 +509,8 @@ func opKinds(w *world, ops []Op) string {
 			if w.item(op.I).K == "del" {
 				sb.WriteString("x")
 			}
+		case "bulk":
+			sb.WriteString("B")
 		case "restart":
 			sb.WriteString("R")
 		case "check":
